@@ -219,6 +219,17 @@ def load(reg):
                  ensures=["SINV(self)", "same(self._simulator_time, old(self._simulator_time))",
                           "len(%s) == len(%s) + 1" % (LS, LS0), NEWEV % "num(time)"],
                  modifies=["self._eventlist._event_list"], props=C02, axiom_sets=AX)
+    # bounded stand-in (labelled BOUNDED): over the reals "clock + delay < clock iff delay < 0"; in float arithmetic a tiny
+    # negative delay is absorbed by the clock, so refusing illegal requests is swept natively at rounding-sensitive clocks
+    def illegal_sweep(table):
+        from pyvc.ground import run_native
+        res = run_native({"function": "DEVSSimulator.schedule_event_rel", "obligation": "bounded-sweep-illegal-scheduling",
+                          "property": "C02"})
+        return [("BOUNDED: negative (down to -5e-324), NaN and -inf delays and times before the clock, at clocks 0, 1, 1000, 1e15 "
+                 "(float) and 0, 1000 s (Duration): refused with DSOLError, pending events unchanged",
+                 not res.get("reproduced"), res.get("observed") or res.get("note"))]
+    reg.ground_obligation("BOUNDED stand-in: native sweep of illegal scheduling requests (float rounding)", ["C02"], illegal_sweep)
+
     reg.contract("DEVSSimulator.cancel_event", params={"event": "ref:SimEvent"},
                  requires=["SINV(self)", "VALID_EVENT(event)"],
                  ensures=["SINV(self)", "same(self._simulator_time, old(self._simulator_time))",
@@ -397,6 +408,18 @@ def load_commands(reg):
     # step: guards as start; a failing handler does not escape; afterwards stopped, consistent, at most one event executed and
     # never one beyond the replication end
     NONTERM = "1 <= self._error_strategy and self._error_strategy <= 3"
+    # bounded stand-in for C04 part (b), which is outside the contracts (run thread, end_replication, notification stream):
+    # command sequences at quiescence on the real simulator against the protocol clauses of the statement
+    def lifecycle_sweep(table):
+        from pyvc.ground import run_native
+        res = run_native({"function": "Simulator.end_replication", "obligation": "bounded-sweep-lifecycle", "property": "C04"})
+        return [("BOUNDED: 120 random command sequences (initialize, start, step, bounded runs, stop, end_replication, "
+                 "re-initialize) at quiescence: only DSOLError is raised; a refused command changes nothing and notifies nobody; "
+                 "START_REPLICATION once and first; START/STOP alternate; TIME_CHANGED non-decreasing; WARMUP at most once at the "
+                 "warm-up time; END_REPLICATION once and last, then ENDED, commands refused, run thread gone",
+                 not res.get("reproduced"), res.get("observed") or res.get("note"))]
+    reg.ground_obligation("BOUNDED stand-in: native lifecycle / notification-stream sweep", C04, lifecycle_sweep)
+
     reg.contract("Simulator.step", params={},
                  requires=[WFREP, "SINV(self)", NONTERM],
                  raises=[("DSOLError", "not %s" % CAN_START)],
